@@ -34,15 +34,15 @@ def gen_case(rng, name):
         c["matrix"] = [[float(rng.randint(1, 5)) for _ in range(m)] for _ in range(n)]
         c["weights"] = [float(rng.choice([1, 2])) for _ in range(m)]
         c["objectives"] = [rng.choice([1, -1]) for _ in range(m)]
-        c["alternatives"] = gen.labels(rng, n, gen.LABEL_POOL_A, "A")
-        c["criteria"] = gen.labels(rng, m, gen.LABEL_POOL_C, "C")
+        c["alternatives"] = gen.labels(rng, n, gen.LABEL_POOL_A, "A", kinds=False)
+        c["criteria"] = gen.labels(rng, m, gen.LABEL_POOL_C, "C", kinds=False)
         c["mode"] = "int"
     n, m = len(c["matrix"]), len(c["weights"])
     pr, pc = list(range(n)), list(range(m))
     rng.shuffle(pr)
     rng.shuffle(pc)
     c["perm_r"], c["perm_c"] = pr, pc
-    c["relabel"] = rng.random() < 0.6
+    c["relabel"] = rng.choice([True, True, True, False, False, "int"])
     c["mult"] = rng.choice([1.0, 2.0, 0.25, 8.0, 3.0, 0.7, 100.0, 1024.0, 0.001, 1e-9, 1e-12, 2.0 ** -40, 1e6, 1e12]) \
         if name in HOMOGENEOUS else 1.0
     steps = []
@@ -80,11 +80,20 @@ def second_presentation(c):
     d["matrix"] = [[c["matrix"][i][j] for j in pc] for i in pr]
     d["objectives"] = [c["objectives"][j] for j in pc]
     d["weights"] = [c["weights"][j] * c["mult"] for j in pc]
-    ra = (lambda a: "alt_" + a[::-1] + "_x") if c["relabel"] else (lambda a: a)
-    rc = (lambda a: "crit_" + a[::-1]) if c["relabel"] else (lambda a: a)
+    # injective relabelings: to other strings, or (relabel == "int") to integers listed in an order that is neither
+    # their sorted order nor their position
+    if c["relabel"] == "int":
+        na, nc = len(c["alternatives"]), len(c["criteria"])
+        amap = {str(a): (3 * k + 1) % max(na, 1) if na % 3 else 5 * k + 2 for k, a in enumerate(c["alternatives"])}
+        cmap = {str(x): (2 * k + 1) % max(nc, 1) if nc % 2 else 7 * k + 1 for k, x in enumerate(c["criteria"])}
+        ra, rc = (lambda a: amap[str(a)]), (lambda a: cmap[str(a)])
+    elif c["relabel"]:
+        ra, rc = (lambda a: "alt_" + str(a)[::-1] + "_x"), (lambda a: "crit_" + str(a)[::-1])
+    else:
+        ra, rc = (lambda a: a), (lambda a: a)
     d["alternatives"] = [ra(c["alternatives"][i]) for i in pr]
     d["criteria"] = [rc(c["criteria"][j]) for j in pc]
-    return d, {ra(a): a for a in c["alternatives"]}
+    return d, {str(ra(a)): str(a) for a in c["alternatives"]}
 
 
 def evaluate(case):
